@@ -4,6 +4,7 @@ import (
 	"fmt"
 	"go/constant"
 	"go/types"
+	"sort"
 	"strings"
 
 	"golang.org/x/tools/go/ssa"
@@ -273,6 +274,9 @@ func (fe *FnEnc) findLocal(name string, l *Loop) *ssa.Alloc {
 	if len(cands) == 0 {
 		return nil
 	}
+	// name#k is the k-th declaration of the name in source order (not in block order, which depends on how the
+	// control flow graph was built)
+	sort.SliceStable(cands, func(i, j int) bool { return cands[i].Pos() < cands[j].Pos() })
 	if want > 0 {
 		if want <= len(cands) {
 			return cands[want-1]
@@ -1289,6 +1293,24 @@ func (fe *FnEnc) trCall(x ECall, env *Env) SVal {
 			t = slArr(t)
 		}
 		return SVal{T: tCmp("<=", t, oa), Typ: types.Typ[types.Bool]}
+	case "keyOf": // keyOf(m, a, b, ...): the struct value with fields a, b, ... of the key type of map m (keys of function-local struct types)
+		m := fe.tr(x.Args[0], env)
+		var kt types.Type
+		if m.Typ != nil {
+			if mt, ok := m.Typ.Underlying().(*types.Map); ok {
+				kt = mt.Key()
+			}
+		}
+		stt := structOf(kt)
+		if kt == nil || stt == nil || stt.NumFields() != len(x.Args)-1 {
+			fe.specFail("keyOf: first argument must be a map with a struct key of %d fields", len(x.Args)-1)
+		}
+		srt := fe.sorts.sortOf(kt)
+		var as []Term
+		for _, a := range x.Args[1:] {
+			as = append(as, fe.mat(fe.tr(a, env), env).T)
+		}
+		return SVal{T: Term{app(q("mk."+strings.Trim(srt, "|")), as...), srt}, Typ: kt}
 	case "arr": // backing array of a slice
 		v := fe.mat(fe.tr(x.Args[0], env), env)
 		return SVal{T: slArr(v.T), Typ: types.Typ[types.Int]}
